@@ -294,9 +294,9 @@ fn sanitize_animated(reader: &mut DynChunkReader<'_>, vp8x: &Vp8xChunk, config: 
                 let vp8l @ Vp8lChunk { .. } = anmf_reader.parse_data()?;
                 let (width, height) = (vp8l.width(), vp8l.height());
                 ensure_attach!(
-                    (vp8l.width().into(), vp8l.height().into()) == (vp8x.canvas_width(), vp8x.canvas_height()),
+                    (vp8l.width().into(), vp8l.height().into()) == (anmf.width(), anmf.height()),
                     ParseError::InvalidInput,
-                    FrameDimensionsMismatch(vp8l.width(), vp8l.height(), vp8x.canvas_width(), vp8x.canvas_height()),
+                    FrameDimensionsMismatch(vp8l.width(), vp8l.height(), anmf.width(), anmf.height()),
                     WhileParsingType::new::<Vp8lChunk>(),
                 );
                 vp8l.sanitize_image_data(anmf_reader.data_reader())?;
